@@ -9,7 +9,7 @@ namespace Prom.Promql
 
 /-! ### byte classes -/
 
-theorem decDigits_eq : decDigits = [48, 49, 50, 51, 52, 53, 54, 55, 56, 57] := by
+theorem LexDur_decDigits_eq : decDigits = [48, 49, 50, 51, 52, 53, 54, 55, 56, 57] := by
   have h : "0123456789".toByteArray = ⟨#[48, 49, 50, 51, 52, 53, 54, 55, 56, 57]⟩ := by rfl
   simp [decDigits, bs, String.toUTF8, h, ByteArray.toList, ByteArray.toList.loop, ByteArray.size,
     ByteArray.get!]
@@ -24,12 +24,12 @@ theorem bs_smhdwy : bs "smhdwy" = [115, 109, 104, 100, 119, 121] := by
   simp [bs, String.toUTF8, h, ByteArray.toList, ByteArray.toList.loop, ByteArray.size,
     ByteArray.get!]
 
-theorem inSet_decDigits (c : UInt8) : inSet decDigits c = isDigitB c := by
-  rw [decDigits_eq, Bool.eq_iff_iff]
+theorem LexDur_inSet_decDigits (c : UInt8) : inSet decDigits c = isDigitB c := by
+  rw [LexDur_decDigits_eq, Bool.eq_iff_iff]
   simp [inSet, isDigitB, UInt8.le_iff_toNat_le, ← UInt8.toNat_inj]
   omega
 
-theorem inSet_decDigits_fun : inSet decDigits = isDigitB := funext inSet_decDigits
+theorem LexDur_inSet_decDigits_fun : inSet decDigits = isDigitB := funext LexDur_inSet_decDigits
 
 /-- `c` is not one of the characters the `scanNumber` loop continues on. -/
 def NumStop (c : UInt8) : Prop :=
@@ -85,13 +85,13 @@ theorem notS_append (text rest : Bytes) (h : DigitStart text) (hrest : NonAlnumS
 
 /-! ### `scanNumber` on a digit run followed by a unit letter -/
 
-theorem scanNumLoop_digits (fuel : Nat) (acc ds : Bytes) (c : UInt8) (more : Bytes)
+theorem LexDur_scanNumLoop_digits (fuel : Nat) (acc ds : Bytes) (c : UInt8) (more : Bytes)
     (hds : ds.all isDigitB = true) (hc : NumStop c) (hf : ds.length < fuel) :
     scanNumLoop false fuel false false acc (ds ++ c :: more) = (true, ds.reverse ++ acc, c :: more) := by
   have hstop : ∀ f a, scanNumLoop false (f + 1) false false a (c :: more) = (true, a, c :: more) := by
     intro f a
     unfold NumStop at hc
-    simp only [scanNumLoop, Bool.false_eq_true, if_false, inSet_decDigits, hc, Bool.not_false,
+    simp only [scanNumLoop, Bool.false_eq_true, if_false, LexDur_inSet_decDigits, hc, Bool.not_false,
       if_true]
   cases ds with
   | nil =>
@@ -108,8 +108,8 @@ theorem scanNumLoop_digits (fuel : Nat) (acc ds : Bytes) (c : UInt8) (more : Byt
     obtain ⟨h1, h2, h3, h4⟩ := digit_numchar d hds.1
     rw [List.cons_append] at htw ⊢
     rw [scanNumLoop.eq_def]
-    simp only [Bool.false_eq_true, if_false, inSet_decDigits, hds.1, h1, h2, h3, h4, Bool.or_false,
-      Bool.not_true, Bool.false_and, inSet_decDigits_fun]
+    simp only [Bool.false_eq_true, if_false, LexDur_inSet_decDigits, hds.1, h1, h2, h3, h4, Bool.or_false,
+      Bool.not_true, Bool.false_and, LexDur_inSet_decDigits_fun]
     rw [htw.1, htw.2]
     exact hstop f _
 
@@ -150,7 +150,7 @@ def snRest (hex : Bool) (acc0 s0 : Bytes) : Bool × Bytes × Bytes :=
     | (acc2, s2) => snFinal (scanNumLoop hex (s2.length + 1) false false acc2 s2)
 
 /-- `scanNumber` cut into its stages. -/
-theorem scanNumber_eq (s : Bytes) : scanNumber s =
+theorem LexDur_scanNumber_eq (s : Bytes) : scanNumber s =
     (match snPrefix s with
      | (hex, acc0, s0) => snRest hex acc0 s0) := rfl
 
@@ -189,10 +189,10 @@ theorem snRest_digits (acc0 ds : Bytes) (c : UInt8) (more : Bytes)
     rw [List.nil_append, snDot_ne _ _ _ hc.ne_dot]
     simp only [Bool.false_eq_true, if_false]
     have h1 : snFirst decDigits acc0 (c :: more) = (acc0, c :: more) := by
-      simp [snFirst, inSet_decDigits, hc.not_digit]
+      simp [snFirst, LexDur_inSet_decDigits, hc.not_digit]
     rw [h1]
     simp only []
-    have := scanNumLoop_digits ((c :: more).length + 1) acc0 [] c more (by simp) hc (by simp)
+    have := LexDur_scanNumLoop_digits ((c :: more).length + 1) acc0 [] c more (by simp) hc (by simp)
     rw [List.nil_append] at this
     rw [this]
     exact snFinal_alnum _ c more hne hal
@@ -204,10 +204,10 @@ theorem snRest_digits (acc0 ds : Bytes) (c : UInt8) (more : Bytes)
     rw [List.cons_append, snDot_ne _ _ _ (digit_ne_dot d hd)]
     simp only [Bool.false_eq_true, if_false]
     have h1 : snFirst decDigits acc0 (d :: (ds ++ c :: more)) = (d :: acc0, ds ++ c :: more) := by
-      simp [snFirst, inSet_decDigits, hd]
+      simp [snFirst, LexDur_inSet_decDigits, hd]
     rw [h1]
     simp only []
-    rw [scanNumLoop_digits _ (d :: acc0) ds c more hds' hc
+    rw [LexDur_scanNumLoop_digits _ (d :: acc0) ds c more hds' hc
       (by simp only [List.length_append, List.length_cons]; omega)]
     have he : ds.reverse ++ d :: acc0 = (d :: ds).reverse ++ acc0 := by simp
     rw [he]
@@ -217,7 +217,7 @@ theorem scanNumber_digits (d : UInt8) (ds : Bytes) (c : UInt8) (more : Bytes)
     (hd0 : d ≠ 48) (hds : (d :: ds).all isDigitB = true) (hc : NumStop c)
     (hal : isAlnumB c = true) :
     scanNumber ((d :: ds) ++ c :: more) = (false, (d :: ds).reverse, c :: more) := by
-  rw [scanNumber_eq, List.cons_append, snPrefix_ne48 _ _ hd0]
+  rw [LexDur_scanNumber_eq, List.cons_append, snPrefix_ne48 _ _ hd0]
   simp only []
   have := snRest_digits [] (d :: ds) c more hds hc hal (by simp)
   rw [List.cons_append, List.append_nil] at this
@@ -226,7 +226,7 @@ theorem scanNumber_digits (d : UInt8) (ds : Bytes) (c : UInt8) (more : Bytes)
 theorem scanNumber_zero (c : UInt8) (more : Bytes) (hc : NumStop c) (hal : isAlnumB c = true)
     (h1 : c ≠ 120) (h2 : c ≠ 88) :
     scanNumber (48 :: c :: more) = (false, [48], c :: more) := by
-  rw [scanNumber_eq, snPrefix_48 _ _ h1 h2]
+  rw [LexDur_scanNumber_eq, snPrefix_48 _ _ h1 h2]
   simp only []
   have := snRest_digits [48] [] c more (by simp) hc hal (by simp)
   simpa using this
